@@ -144,8 +144,18 @@ RetWrite ==
   /\ published' = published \ {E.op}
   /\ Same(<<holder, promised, grp, txown, commitLk, clHolder, states, pubBegun, pubEnded, pending, floor>>)
 
+\* SetReadOnly keeps the write lock on success: it now belongs to the compaction-error goroutine, which gives it back at Close.
+\* A SetReadOnly that fails (closed, persistent error) holds nothing.
+RetSetRO ==
+  /\ E.ev = "ret" /\ E.op \in Dom(ops) /\ ops[E.op].kind = "setro"
+  /\ clHolder # E.c
+  /\ IF E.err = "none" THEN Proto(holder = E.c) /\ holder' = (IF holder = E.c THEN -3 ELSE holder)
+     ELSE Proto(holder # E.c) /\ Same(holder)
+  /\ ops' = Drop(ops, {E.op})
+  /\ Same(<<promised, grp, result, txown, commitLk, clHolder, states, pubBegun, pubEnded, pending, floor, published>>)
+
 RetOther ==
-  /\ E.ev = "ret" /\ E.op \in Dom(ops) /\ ~IsWrite(ops[E.op].kind) /\ ops[E.op].kind \notin {"get", "snapall", "iterall"}
+  /\ E.ev = "ret" /\ E.op \in Dom(ops) /\ ~IsWrite(ops[E.op].kind) /\ ops[E.op].kind \notin {"get", "snapall", "iterall", "setro"}
   /\ LET o == ops[E.op] IN
      /\ clHolder # E.c
      /\ CASE o.kind = "txopen"    -> /\ (E.err = "none") => (holder = E.c /\ txown = E.c)
@@ -330,7 +340,7 @@ OtherHook ==
 Next ==
   /\ l <= Len(Trace)
   /\ l' = l + 1
-  /\ \/ Reset \/ Call \/ RetRead \/ RetWrite \/ RetOther \/ Quiesce \/ Note
+  /\ \/ Reset \/ Call \/ RetRead \/ RetWrite \/ RetOther \/ RetSetRO \/ Quiesce \/ Note
      \/ WLock \/ WHandoff \/ XLock \/ XUnlock \/ CloseLock \/ CeLock \/ CeUnlock
      \/ WLeader \/ WMerge \/ WMerged \/ WOverflow \/ WJournal \/ WPubBegin \/ WPubEnd \/ WUnlock
      \/ TxOpen \/ ClLock \/ ClUnlock \/ TxPubBegin \/ TxPublish \/ OtherHook
